@@ -33,13 +33,13 @@ type cacheKeyed struct {
 }
 
 type execOp struct {
-	kind    int // 0 Exec shared template, 1 Parse+Exec, 2 Render, 3 CacheSet+Render, 4 Clone+Exec, 5 page then layout with ONE context, 6 NewTemplate+Exec inside the task, 7 RenderR, 8 layout on a child of the page's context
+	kind    int // 0 Exec shared template, 1 Parse+Exec, 2 Render, 3 CacheSet+Render, 4 Clone+Exec, 5 page then layout with ONE context, 6 NewTemplate+Exec inside the task, 7 RenderR, 8 layout on a child of the page's context, 9 BuffaloRenderer with one shared helpers map
 	prog    int
 	variant int
 }
 
 func (o execOp) String() string {
-	k := [...]string{"Exec(shared template)", "Parse+Exec", "Render", "CacheSet(NewTemplate)+Render", "Clone+Exec", "Exec(page) then Exec(layout) with the same context", "NewTemplate+Exec (parsed by the task itself)", "RenderR (text from a reader)", "Exec(layout) on a child of the context that rendered the page"}[o.kind]
+	k := [...]string{"Exec(shared template)", "Parse+Exec", "Render", "CacheSet(NewTemplate)+Render", "Clone+Exec", "Exec(page) then Exec(layout) with the same context", "NewTemplate+Exec (parsed by the task itself)", "RenderR (text from a reader)", "Exec(layout) on a child of the context that rendered the page", "BuffaloRenderer with the application's ONE helpers map"}[o.kind]
 	return fmt.Sprintf("%s prog %d data %d", k, o.prog, o.variant)
 }
 
@@ -184,7 +184,7 @@ func c14ExecRun(t *rapid.T) {
 					o.kind = 8
 				}
 			default:
-				o.kind = []int{1, 2, 2, 3, 7, 7}[uni(t, "kind", 6)]
+				o.kind = []int{1, 2, 2, 3, 7, 7, 9, 9}[uni(t, "kind", 8)]
 			}
 			plan[i] = append(plan[i], o)
 		}
@@ -229,6 +229,15 @@ func c14ExecRun(t *rapid.T) {
 		sharedLayout, lerr = plush.NewTemplate(layoutText)
 		if lerr != nil {
 			t.Fatalf("VERIF-INTERNAL layout does not parse: %v", lerr)
+		}
+	}
+	// one helpers map per (program, caller variant), shared by all tasks (kind 9)
+	appHelpers := map[int]map[string]interface{}{}
+	for pi, p := range progs {
+		for v := 0; v < nvar; v++ {
+			hr := newRuntime(p, false)
+			hr.Variant = v
+			appHelpers[pi*8+v] = hr.helperData()
 		}
 	}
 	var sharedLayout7 *plush.Template
@@ -330,6 +339,11 @@ func c14ExecRun(t *rapid.T) {
 						input = tm.Input
 						out, err = safeExec(tm, ctx)
 					}
+				case 9:
+					// buffalo's way: fresh request data, the application's ONE helpers map (shared by every request;
+					// its probes do not record, so nothing in it is written by the harness)
+					rt.Record = false
+					out, err = safeBuffalo(p.Main, rt.plainData(), appHelpers[o.prog*8+o.variant])
 				case 8:
 					ctx.Set("who", fmt.Sprintf("T%d.%d", i, x))
 					out, err = safeExec(sharedLayout7, ctx)
@@ -519,6 +533,7 @@ func c14ExecRun(t *rapid.T) {
 	type refKey struct {
 		prog, variant int
 		layout        bool
+		buffalo       bool
 	}
 	ref := map[refKey]execRes{}
 	for _, ops := range plan {
@@ -526,7 +541,7 @@ func c14ExecRun(t *rapid.T) {
 			if o.kind == 8 {
 				continue // S7: compared below, op by op (each op has its own `who`)
 			}
-			k := refKey{o.prog, o.variant, o.kind == 5}
+			k := refKey{o.prog, o.variant, o.kind == 5, o.kind == 9}
 			if _, ok := ref[k]; ok {
 				continue
 			}
@@ -541,7 +556,18 @@ func c14ExecRun(t *rapid.T) {
 			simrt.SetMapOrder(simrt.Canonical, 0)
 			var r execRes
 			rsim := simrt.NewSim(rapidChooser{t}, simrt.Options{Policy: simrt.RoundRobin, MaxSteps: 2000000})
+			buffalo := o.kind == 9
 			rsim.Go("ref", func() {
+				if buffalo {
+					// alone: the same entry point, a helpers map of its own (non-recording, like the shared one)
+					hr := newRuntime(p, false)
+					hr.Variant = rt.Variant
+					rt.Record = false
+					out, err := safeBuffalo(p.Main, rt.plainData(), hr.helperData())
+					res := result(out, err, rt)
+					r = execRes{out: res.out, err: res.err, log: res.log}
+					return
+				}
 				tm, err := guardedNewTemplate(p.Main)
 				var out string
 				if err == nil {
@@ -570,7 +596,7 @@ func c14ExecRun(t *rapid.T) {
 	for i, ops := range plan {
 		for x, o := range ops {
 			got := results[i][x]
-			want := ref[refKey{o.prog, o.variant, o.kind == 5}]
+			want := ref[refKey{o.prog, o.variant, o.kind == 5, o.kind == 9}]
 			if o.kind == 8 {
 				// the same thing alone: a parent that rendered the page, one child, the layout
 				p := progs[o.prog]
